@@ -502,9 +502,10 @@ class Aspire:
                     saved_config = True
                     if defaults is not None:
                         defaults["saved_config"] = True
-                if self.flow is not None and not saved_flow:
+                if self.flow is not None:
                     # The particles are weighted under the current flow:
                     # replace a flow left in the file by an earlier fit
+                    # (also one saved earlier in the same context)
                     if "flow" in h5_file:
                         del h5_file["flow"]
                     self.save_flow(h5_file)
